@@ -75,6 +75,7 @@ def menu(ref: RefStore, reduced=False):
         ops.append(("copy",))
         ops.append(("mol", "A", "m1"))
         ops.append(("mol", "B", "m2"))
+        ops.append(("mol", "r_1", "m3"))  # a name that may be a live reaction id but is never a species
     return ops
 
 
